@@ -1168,7 +1168,9 @@ class DiGraphLiveness(DiGraph):
         """
         Compute the liveness information for the digraph.
         """
-        todo = set(self.leaves())
+        # Start from every node: a leaf which reads nothing (or which is not
+        # a known block) propagates nothing, and a loop may have no leaf
+        todo = set(self.nodes())
         while todo:
             node = todo.pop()
             cur_block = self.blocks.get(node, None)
